@@ -7,6 +7,9 @@ from .paths import (Parents, guards_of, flat_guards, np_atom, strip_not, enumera
 from .pat import has, find, first, name_of
 from .rules_t import kwonly, str_elts
 from .rules_d import fixture_ctx
+from .norm import view, builders
+from .paths import decision_table, isinstance_atom, flatten_guard
+from .pat import match, _parse
 
 
 # ---------------------------------------------------------------------- K1
@@ -480,6 +483,11 @@ def k6(ctx, res):
         if f is None:
             raise AnalysisError(f"{cname}._validate vanished")
         normed = _normalised_locals(f)
+        len_locals = set()
+        for st in walk_own(f.body):
+            if isinstance(st, ast.Assign) and len(st.targets) == 1 and isinstance(st.targets[0], ast.Name) \
+                    and isinstance(st.value, ast.Call) and dotted(st.value.func) == "len":
+                len_locals.add(st.targets[0].id)
         for node in walk_own(f.body):
             operands = []
             if isinstance(node, ast.Compare) and any(isinstance(o, (ast.Eq, ast.NotEq, ast.In, ast.NotIn)) for o in node.ops):
@@ -492,6 +500,8 @@ def k6(ctx, res):
                 operands = [node.args[0]]
             for x in operands:
                 if isinstance(x, ast.Call) and dotted(x.func) == "len":
+                    continue
+                if isinstance(x, ast.Name) and x.id in len_locals:
                     continue
                 n += 1
                 ok = (isinstance(x, ast.Name) and x.id in normed) or \
@@ -511,7 +521,11 @@ def k6(ctx, res):
 @rule("K6b", "element equality compares literal keywords with bool-aware JSON equality")
 def k6b(ctx, res):
     eq = ctx.func("Element.__eq__")
-    uses = has("replace_bool(MV__)", eq) or any(has("replace_bool(MV__)", g.node) for g in eq.lambdas)
+    helpers = list(eq.lambdas) + list(eq.nested.values())
+    for site in ctx.inf.sites(eq)[0]:
+        if site.kind == "call" and site.callee.module is eq.module:
+            helpers.append(site.callee)
+    uses = has("replace_bool(MV__)", eq) or any(has("replace_bool(MV__)", g.node) for g in helpers)
     res.check(uses, eq, "pub_vars(self) == pub_vars(other)",
               reason="Element.__eq__ compares const/enum/default with Python ==, so Element(const=1) == Element(const=True) "
                      "although they accept different values")
@@ -522,20 +536,55 @@ def k6b(ctx, res):
 def k7(ctx, res):
     f = ctx.func("_parse_literal")
     v = f.params[0].name
-    ok_dict = False
-    for n in walk_own(f.body):
-        if isinstance(n, ast.DictComp) and len(n.generators) == 1:
-            g = n.generators[0]
+    vb = view(f, ctx.prog).body
+
+    def rec(e):
+        ia = isinstance_atom(e)
+        if ia and ia[0] == v:
+            if sorted(ia[1]) == ["dict", "list"]:
+                return ("CONTAINER", ia[2])
+            if ia[1] == ["list"]:
+                return ("LIST", ia[2])
+            if ia[1] == ["dict"]:
+                return ("DICT", ia[2])
+        return None
+
+    def classify(p):
+        if p.exit != "return":
+            return p.exit
+        e = p.exit_node.value
+        if norm(e) == v:
+            return "unchanged"
+        if match(_parse(f"[_parse_literal(MV_x) for MV_x in {v}]"), e) is not None:
+            return "list-recursive"
+        if isinstance(e, ast.DictComp) and len(e.generators) == 1:
+            g = e.generators[0]
             if norm(g.iter) == f"{v}.items()" and isinstance(g.target, ast.Tuple):
                 k, x = norm(g.target.elts[0]), norm(g.target.elts[1])
-                ok_dict = [norm(c) for c in g.ifs] == [f"{k} != '_x_autotitle'"] and norm(n.key) == k and \
-                    norm(n.value) == f"_parse_literal({x})"
-    res.check(ok_dict, f, "{key: _parse_literal(val) for key, val in literal.items() if key != '_x_autotitle'}",
-              reason="only the key `_x_autotitle` is stripped from a literal; everything else is kept, recursively")
-    ok_list = has(f"[_parse_literal(MV_x) for MV_x in {v}]", f)
-    res.check(ok_list, f, "[_parse_literal(val) for val in literal]", reason="list members are kept, in order, recursively")
-    res.check(has(f"if not isinstance({v}, (dict, list)):\n    return {v}", f) or has(f"if not isinstance({v}, (list, dict)):\n    return {v}", f), f,
-              "scalars are returned unchanged", reason="scalar literals are untouched")
+                conds = [norm(c) for c in g.ifs]
+                if norm(e.key) == k and norm(e.value) == f"_parse_literal({x})":
+                    if conds == [f"{k} != '_x_autotitle'"]:
+                        return "dict-recursive-minus-autotitle"
+                    return "dict-recursive-filter:" + " and ".join(conds)
+        return "other:" + norm(e)[:60]
+    table, opaque = decision_table(vb, ["CONTAINER", "LIST", "DICT"], rec, classify)
+    good = True
+    bad = {}
+    for (cont, lst, dct), labels in table.items():
+        if lst and dct:
+            continue
+        if (lst or dct) and not cont:
+            continue
+        if cont and not (lst or dct):
+            continue
+        want = {"list-recursive"} if lst else {"dict-recursive-minus-autotitle"} if dct else {"unchanged"}
+        if labels != want:
+            good = False
+            bad[str((cont, lst, dct))] = sorted(labels)
+    res.judge(True if good else (None if opaque else False), f,
+              "scalar -> unchanged; list -> every member recursively; dict -> every member recursively except key '_x_autotitle'",
+              detail={"opaque": sorted(opaque), "mismatches": bad},
+              reason="only the key `_x_autotitle` is stripped from a literal; everything else is kept, in order, recursively")
     pe = ctx.func("parse_element")
     ok = False
     for n in walk_own(pe.body):
